@@ -269,6 +269,8 @@ def judge (sc : Scenario) (evs : List (Proc × Ev)) : List String :=
         | none => { o with viol := s!"C04:sub{i} was sent a message that is neither published nor returned by Put" :: o.viol }
       let o := if o.returnedSubs.contains i then
         { o with viol := s!"C06:sub{i} was written to after its Subscribe returned" :: o.viol } else o
+      let o := if o.ownFailed.contains i then
+        { o with viol := s!"C17:sub{i} is still being sent to after its own Send/Flush failed (it must have been removed)" :: o.viol } else o
       if sendOk && flushOk then o
       else { o with ended := (i, o.log.length) :: o.ended, ownFailed := i :: o.ownFailed, faults := true }
     | .lab (.unsubAccept i) => if (o.ended.find? (·.1 == i)).isSome then o else { o with ended := (i, o.log.length) :: o.ended }
